@@ -228,4 +228,159 @@ theorem stepM_memSize (hinv : Inv lt s.ls tys stack locals env) (hm : MInv mc ba
         show upd (upd (upd env _ _) _ _) _ _ v = env v
         rw [upd_ne (by omega), upd_ne (by omega), upd_ne (by omega)])
 
+theorem stepM_load (k : LoadK) (off : Nat) (hinv : Inv lt s.ls tys stack locals env)
+    (hm : MInv mc base st.mem s env mem) (htc : tcStepM lt (.load k off) tys = some tys') :
+    StepOKM w m lt mc base (.load k off) s tys' stack locals env st mem n := by
+  match tys, htc, hinv with
+  | [], h, _ => simp [tcStepM] at h
+  | t :: tys0, h, hinv =>
+    simp only [tcStepM] at h
+    split at h
+    · rename_i hcond
+      obtain ⟨rfl, hoff⟩ := hcond
+      simp only [Option.some.injEq] at h; subst h
+      obtain ⟨vb, srest, a, stack', hs1, rfl, hb, haR, hbF, inv1⟩ := hinv.uncons
+      simp only [Ty.bits] at haR
+      obtain ⟨hk1, hk8⟩ := loadK_bytes_pos k
+      have hbaseR := hm.emb.baseR
+      -- the front end's state after the pop
+      have hpeek : s.ls.peek = (vb, .i32) := by simp only [LS.peek, hs1, List.headD_cons]
+      have hpop : s.ls.pop.2 = { s.ls with stack := srest } := by simp only [LS.pop, hs1, List.tail_cons]
+      have hm1 : MInv mc base st.mem { s with ls := s.ls.pop.2 } env mem :=
+        hm.frame rfl rfl rfl (by rw [hpop]; exact Nat.le_refl _) (fun _ _ => rfl)
+      have hset := memOpSetup_ok (w := w) hm1 (b := vb) (a := a) (ceil := off + k.bytes)
+        (by rw [hpop]; exact hbF) hb haR (by omega)
+      unfold StepOKM
+      simp only [lowerMI, hpeek]
+      generalize hM : memOpSetup { s with ls := s.ls.pop.2 } vb (off + k.bytes) = M at hset
+      by_cases hin : a + (off + k.bytes) ≤ st.mem.size
+      · -- in bounds
+        obtain ⟨env2, P, haddr, haddrlt⟩ := hset.1 hin
+        obtain ⟨log1, hok1, hrun1⟩ := P.run
+        have hea : (env2 M.2.1 + off) % 2 ^ 64 = base + (a + off) := by
+          rw [haddr, Nat.mod_eq_of_lt (by omega)]; omega
+        have hraw : memLoad mem ((env2 M.2.1 + off) % 2 ^ 64) k.bytes = Wasm.readLE st.mem (a + off) k.bytes := by
+          rw [hea]; exact emb_load hm.emb (a + off) k.bytes (by omega)
+        have hrawlt := readLE_lt st.mem k.bytes (a + off)
+        have hstep := loadInstr_step w k M.2.2.ls.next M.2.1 off env2 mem (by rw [hraw]; exact hrawlt)
+        rw [hraw] at hstep
+        let val := loadVal k (Wasm.readLE st.mem (a + off) k.bytes)
+        have hvallt : val < 2 ^ k.ty.bits := loadVal_lt k _ hrawlt
+        refine .inl ⟨val :: stack', locals, upd env2 M.2.2.ls.next val, st.mem, mem,
+          log1 ++ [⟨false, base + (a + off), k.bytes⟩], ?_, rfl, ?_, ?_, ?_, ?_⟩
+        · simp only [MI.toInstr, Wasm.execInstr, Nat.mul_div_cancel_left k.bytes (show 0 < 8 by omega), toVT_bits]
+          rw [if_neg (by omega)]
+          rfl
+        · refine hok1.append ?_
+          intro x hx
+          simp only [List.mem_singleton] at hx
+          subst hx
+          left
+          simp only [Acc.inside, decide_eq_true_eq]
+          omega
+        · intro log
+          rw [runL_append, hrun1 log]
+          simp only
+          rw [runL_cons_next [] _ hstep]
+          have : (mkM env2 mem).env = env2 := rfl
+          rw [this, loadInstr_acc, hea]
+          simp only [runL, List.append_assoc]
+          rfl
+        · have i2 : Inv lt M.2.2.ls tys0 stack' locals env2 :=
+            Inv.frame inv1 (by rw [P.stack, hpop]) (by rw [P.locals, hpop]) (by have := P.next; rw [hpop] at this; exact this)
+              (fun v hv => P.frame v (by rw [hpop]; exact hv))
+          have := i2.pushNew k.ty val hvallt 1 (Nat.le_refl _)
+          simpa [LS.pushNew] using this
+        · exact P.inv.frame rfl rfl rfl (by simp only [LS.pushNew]; omega) (fun v hv => upd_ne (by omega))
+      · -- out of bounds
+        obtain ⟨env2, log1, hok1, hrun1⟩ := hset.2 (by omega)
+        refine .inr ⟨codeMemOOB, ⟨a :: stack', locals⟩, env2, log1, ?_, hok1, ?_, .inl rfl⟩
+        · simp only [MI.toInstr, Wasm.execInstr, Nat.mul_div_cancel_left k.bytes (show 0 < 8 by omega)]
+          rw [if_pos (by omega)]
+          rfl
+        · intro log
+          rw [runL_append, hrun1 log]
+    · cases h
+
+theorem stepM_store (k : StoreK) (off : Nat) (hinv : Inv lt s.ls tys stack locals env)
+    (hm : MInv mc base st.mem s env mem) (htc : tcStepM lt (.store k off) tys = some tys') :
+    StepOKM w m lt mc base (.store k off) s tys' stack locals env st mem n := by
+  match tys, htc, hinv with
+  | [], h, _ => simp [tcStepM] at h
+  | [_], h, _ => simp [tcStepM] at h
+  | tv :: ta :: tys0, h, hinv =>
+    simp only [tcStepM] at h
+    split at h
+    · rename_i hcond
+      obtain ⟨rfl, rfl, hoff⟩ := hcond
+      simp only [Option.some.injEq] at h; subst h
+      obtain ⟨vv, srest1, x, stack1, hs1, rfl, hv, hxR, hvF, inv1⟩ := hinv.uncons
+      obtain ⟨vb, srest, a, stack', hs2, rfl, hb, haR, hbF, inv2⟩ := inv1.uncons
+      simp only at hs2 hbF inv2
+      simp only [Ty.bits] at haR
+      obtain ⟨hk1, hk8⟩ := storeK_bytes_pos k
+      have hbaseR := hm.emb.baseR
+      have hpeek : s.ls.peek = (vv, k.ty) := by simp only [LS.peek, hs1, List.headD_cons]
+      have hpeek2 : s.ls.pop.2.peek = (vb, .i32) := by simp only [LS.peek, LS.pop, hs1, hs2, List.tail_cons, List.headD_cons]
+      have hpop : s.ls.pop.2.pop.2 = { s.ls with stack := srest } := by
+        simp only [LS.pop, hs1, hs2, List.tail_cons]
+      have hm1 : MInv mc base st.mem { s with ls := s.ls.pop.2.pop.2 } env mem :=
+        hm.frame rfl rfl rfl (by rw [hpop]; exact Nat.le_refl _) (fun _ _ => rfl)
+      have hset := memOpSetup_ok (w := w) hm1 (b := vb) (a := a) (ceil := off + k.bytes)
+        (by rw [hpop]; exact hbF) hb haR (by omega)
+      unfold StepOKM
+      simp only [lowerMI, hpeek, hpeek2]
+      generalize hM : memOpSetup { s with ls := s.ls.pop.2.pop.2 } vb (off + k.bytes) = M at hset
+      by_cases hin : a + (off + k.bytes) ≤ st.mem.size
+      · obtain ⟨env2, P, haddr, haddrlt⟩ := hset.1 hin
+        obtain ⟨log1, hok1, hrun1⟩ := P.run
+        have hea : (env2 M.2.1 + off) % 2 ^ 64 = base + (a + off) := by
+          rw [haddr, Nat.mod_eq_of_lt (by omega)]; omega
+        have hv2 : env2 vv = x := by rw [P.frame vv (by rw [hpop]; exact hvF)]; exact hv
+        have hemb' := emb_store hm.emb (a + off) k.bytes x (by omega)
+        have hsz := writeLE_size st.mem (a + off) (x % 2 ^ (8 * k.bytes)) k.bytes
+        have hstep : stepM w (.base (.store k.op k.ty vv M.2.1 off)) (mkM env2 mem) =
+            .next (mkM env2 (memStore mem (base + (a + off)) x k.bytes)) := by
+          simp only [stepM, execInstr]
+          have : (mkM env2 mem).env = env2 := rfl
+          rw [this, hea, hv2, storeOp_bytes]
+          rfl
+        refine .inl ⟨stack', locals, env2, Wasm.writeLE st.mem (a + off) k.bytes (x % 2 ^ (8 * k.bytes)),
+          memStore mem (base + (a + off)) x k.bytes, log1 ++ [⟨true, base + (a + off), k.bytes⟩], ?_, hsz, ?_, ?_, ?_, ?_⟩
+        · simp only [MI.toInstr, Wasm.execInstr, Nat.mul_div_cancel_left k.bytes (show 0 < 8 by omega)]
+          rw [if_neg (by omega)]
+        · refine hok1.append ?_
+          intro y hy
+          simp only [List.mem_singleton] at hy
+          subst hy
+          left
+          simp only [Acc.inside, decide_eq_true_eq]
+          omega
+        · intro log
+          rw [runL_append, hrun1 log]
+          simp only
+          rw [runL_cons_next [] _ hstep]
+          have : (mkM env2 mem).env = env2 := rfl
+          simp only [runL, instrAcc, this, hea, storeOp_bytes, List.append_assoc]
+        · exact Inv.frame inv2 (by rw [P.stack, hpop]) (by rw [P.locals, hpop])
+            (by have := P.next; rw [hpop] at this; exact this) (fun v hv => P.frame v (by rw [hpop]; exact hv))
+        · exact P.inv.store hemb' hsz
+      · obtain ⟨env2, log1, hok1, hrun1⟩ := hset.2 (by omega)
+        refine .inr ⟨codeMemOOB, ⟨x :: a :: stack', locals⟩, env2, log1, ?_, hok1, ?_, .inl rfl⟩
+        · simp only [MI.toInstr, Wasm.execInstr, Nat.mul_div_cancel_left k.bytes (show 0 < 8 by omega)]
+          rw [if_pos (by omega)]
+          rfl
+        · intro log
+          rw [runL_append, hrun1 log]
+    · cases h
+
+theorem sim_stepM (i : MI) (hi : i ≠ .base .ret) (hinv : Inv lt s.ls tys stack locals env)
+    (hm : MInv mc base st.mem s env mem) (htc : tcStepM lt i tys = some tys') :
+    StepOKM w m lt mc base i s tys' stack locals env st mem n := by
+  cases i with
+  | base j => exact stepM_base j (fun h => hi (by rw [h])) hinv hm htc
+  | load k off => exact stepM_load k off hinv hm htc
+  | store k off => exact stepM_store k off hinv hm htc
+  | memSize => exact stepM_memSize hinv hm htc
+
 end Wz.Proofs.FrontMem
